@@ -89,6 +89,9 @@ pub struct OpSpec {
     pub ks: String,
     pub ids: Vec<u64>,
     pub level: String,
+    /// put_many only: the call names ids[0] a second time, last, with different bytes
+    #[serde(default)]
+    pub dup: bool,
 }
 
 /// Commands handed to the in-host driver task.
@@ -651,7 +654,15 @@ async fn run_op(sh: &SharedRef, node: u8, h: &ReplicatedStoreHandle<SimStorage>,
     let level = level_of(&spec.level);
     let res = match spec.kind.as_str() {
         "put" => h.put(&spec.ks, spec.ids[0], value_for(node, op_id, spec.ids[0]), level).await,
-        "put_many" => h.put_many(&spec.ks, spec.ids.iter().map(|i| (*i, value_for(node, op_id, *i))).collect::<Vec<_>>(), level).await,
+        "put_many" => {
+            let mut docs: Vec<(u64, Vec<u8>)> = spec.ids.iter().map(|i| (*i, value_for(node, op_id, *i))).collect();
+            if spec.dup {
+                let mut second = value_for(node, op_id, spec.ids[0]);
+                second.extend_from_slice(b"#second-copy");
+                docs.push((spec.ids[0], second));
+            }
+            h.put_many(&spec.ks, docs, level).await
+        },
         "del" => h.del(&spec.ks, spec.ids[0], level).await,
         _ => h.del_many(&spec.ks, spec.ids.clone(), level).await,
     };
